@@ -94,6 +94,45 @@ def _alarm(signum, frame):
     raise RunTimeout()
 
 
+def fresh_check(T, item, tmp, interner, workdir):
+    """C08, second sentence: the violations the --fix run reported at its end are those a fresh check of the written file
+    reports.  The fresh check is a second, untraced apply_rules on the file as it now is, same configuration, no --fix."""
+    vfix = None
+    for e in reversed(T.ev):
+        if e["e"] == "CheckViol":
+            vfix = e["v"]
+            e["v"], e["n"] = [], len(vfix)        # (the trace keeps the count; the violations travel in the FreshCheck event, interned)
+            e.pop("table", None)
+            break
+    if vfix is None:
+        return
+    args = [a for a in item.get("args", []) if a not in ("--fix", "--backup")]
+    T2 = hooks.Tracer(interner=interner, toi=False)
+    T2.check_viol = True
+    hooks.set_tracer(T2)
+    try:
+        cla2 = parse_args(["-f", tmp] + expand_skip(args, workdir))
+        oConfig2 = config.New(cla2)
+        apply_rules.apply_rules(cla2, oConfig2, (0, tmp))
+    finally:
+        hooks.set_tracer(T)
+    vfresh = None
+    for e in reversed(T2.ev):
+        if e["e"] == "CheckViol":
+            vfresh = e["v"]
+            break
+    if vfresh is None:
+        T.emit({"e": "FreshCheck", "ok": False, "vfix": [], "vfresh": [], "onlyFix": [], "onlyFresh": []})
+        return
+
+    def key(v):
+        return [interner.s(v["rule"]), int(v["line"]), interner.s(v["sol"])]
+
+    a, b = [key(v) for v in vfix], [key(v) for v in vfresh]
+    sa, sb = set(map(tuple, a)), set(map(tuple, b))
+    T.emit({"e": "FreshCheck", "ok": True, "vfix": a, "vfresh": b, "onlyFix": [list(x) for x in sorted(sa - sb)][:5], "onlyFresh": [list(x) for x in sorted(sb - sa)][:5]})
+
+
 def run_item(item, job, interner, classes, workdir):
     """one traced execution; returns the run record.  A run that does not return within job["timeout"] seconds (default
     300; the slowest fixture takes about 10) is interrupted and recorded as a hang (C19)."""
@@ -138,7 +177,11 @@ def run_item(item, job, interner, classes, workdir):
                 nfix0 = T.stats.get("nfix", 0)
                 rd = {"nfix": -1, "ok": False, "sameInode": True, "sameMtime": True, "sameBytes": True}
                 rec["rounds"].append(rd)
+                T.check_viol = bool(item.get("fresh")) and k == 0
                 res = apply_rules.apply_rules(cla, oConfig, (0, tmp))
+                T.check_viol = False
+                if item.get("fresh") and k == 0 and "--fix" in item.get("args", []):
+                    fresh_check(T, item, tmp, interner, workdir)
                 st1 = os.stat(tmp)
                 with open(tmp, "rb") as f:
                     b1 = f.read()
